@@ -483,6 +483,14 @@ def rewrite_body(body, log, r14=None):
         body = body[:mo.start()] + rep + body[b_close + 1 + tail.end():]
         log.append('R17')
 
+    # R2e -- `for X in V.iter_mut() {` -> index loop binding a mutable reference to the element
+    def r2e(mo):
+        log.append('R2e')
+        pat, vec = mo.group(1), mo.group(2)
+        iv = 'i_' + pat
+        return 'for %s in 0..%s.len() { let %s = &mut %s[%s];' % (iv, vec, pat, vec, iv)
+    body = re.sub(r'\bfor\s+(\w+)\s+in\s+([a-z_]\w*)\.iter_mut\(\)\s*\{', r2e, body)
+
     # R10 -- drain(..)
     def r10(mo):
         log.append('R10')
